@@ -73,6 +73,11 @@ ASSUMPTIONS = [
     'GraphQL layer itself is not exercised.',
     'The ZMQ publisher is stubbed (engine S): only content and order of the '
     'published batches are checked.',
+    'A run that the engine aborts because the scheduler waits for ever '
+    'inside one call (seen: a reload waiting for a task left `preparing` '
+    'by the trigger-then-reload defect described in '
+    'findings/C25_triggered_task_reprepared_from_stale_proxy_after_reload.py) '
+    'is counted inconclusive and not judged.',
 ]
 
 CMD_OPS = ['hold', 'release', 'trigger', 'set', 'remove', 'pause', 'resume']
